@@ -242,7 +242,7 @@ pub fn literal_record(args: &[String]) {
                 0 => s.push_str(".5"),
                 1 => s.push('e'),
                 2 => s.push_str("e+3"),
-                3 => s.insert(rng.gen_range(1..s.len()), '.'),
+                3 if s.len() > 1 => s.insert(rng.gen_range(1..s.len()), '.'),
                 4 => s.push_str("E-1"),
                 _ => {}
             }
